@@ -47,7 +47,11 @@ RULE = (
     "over MaskedImage / TriMesh, each with public behaviour probes on the unpickled copy (pickle); pgm / pbm / pcx / im and JPEG-written "
     "sources (images); refused exports onto empty files, directories and with a mismatching extension= (refused_export); exports into "
     "BytesIO / BufferedWriter / named handles (handle_export); import_image(...).landmarks, import_images and import_landmark_files over "
-    "a directory of pictures with .ljson / .pts files (attach). Distinct = distinct canonical-JSON digest of the case."
+    "a directory of pictures with .ljson / .pts files (attach). Added in round 5 (reexport): ONE live object - a shape, a host with a "
+    "LandmarkManager, an image with landmark groups, arrays plain / read-only / Fortran-ordered / strided - read by 2-4 exports (itself, its "
+    "manager, a dict of its groups, one group; .pts / .ljson / image formats / .pkl / .pkl.gz; new path, same path with overwrite=True, BytesIO; "
+    "imports in between): the object is unchanged after every export and every file imports back to a pristine twin built from the same plain "
+    "data. Distinct = distinct canonical-JSON digest of the case."
 )
 ASSUMPTIONS = [
     "point clouds have >= 1 point: an empty cloud is written as 'points: []' which carries no dimension and is outside the stated domain",
@@ -75,6 +79,11 @@ ASSUMPTIONS = [
     "overwrite=True' and 'other files unchanged' are judged there; handles whose .name is not a path (tempfile.TemporaryFile: an int) are not generated",
     "a directory at the target with overwrite=False must be refused with OverwriteError ('an existing path'); with overwrite=True nothing is claimed for it; "
     "a mismatching extension= on an existing path may be refused with ValueError or OverwriteError, the tree must be unchanged either way",
+    "reexport: 'unchanged' is digest.parameter_mutation over the exported root object (and a dict of its groups): values, dtypes, shapes and "
+    "writeable flags of every reachable array, public attributes; private slots that were absent / None may be filled. Files are judged against a "
+    "second object built from the same plain data and never exported (public views via digest.public_view, without the .path that import_pickle "
+    "sets), never against the live object. Groups written as .pts are 2-D, finite, |x| <= 4e6, float32 values k/1024 (as in the pts clause); 3-D "
+    "shapes are never written as .pts here (open known finding C16-pts-3d-truncated stays with the pts clause)",
     "attach: landmark files are attached by menpo's default resolver (same stem); stems are chosen so that no stem is a dotted prefix of another "
     "('a.png' would also pick up 'a.b.ljson'), ljson group names avoid 'PTS' / 'LJSON' (merged dictionaries would clash), 3-D groups next to a 2-D "
     "picture are neither required nor forbidden; order of import_images / import_landmark_files is judged only among lower-case ASCII-letter stems",
@@ -643,7 +652,11 @@ def c_pickle(case, ctx):
             obj.path = Path(t.root) / "source" / "asset.png"
             ctx.event("path attribute set")
         kw = {} if case["protocol"] is None else {"protocol": case["protocol"]}
+        d0 = digest.digest(obj, skip=_SKIP_PATH)
         mio.export_pickle(obj, _as_fp(p, case["as_path"]), **kw)
+        # exporting never modifies what it exports (lazily filled private caches apart)
+        mut = digest.parameter_mutation(d0, digest.digest(obj, skip=_SKIP_PATH))
+        ctx.expect(mut is None, "pickle.object_modified", lambda: "%s via %s: %r" % (type(obj).__name__, case["file"], mut))
         with open(p, "rb") as f:
             head = f.read(2)
         ctx.event("gzip header" if head == b"\x1f\x8b" else "plain header")
@@ -1767,6 +1780,265 @@ def c_attach(case, ctx):
         ctx.expect(_plain_order_ok([n for n in seen if n]), "attach.import_landmark_files.order", lambda: repr(seen))
 
 
+# ==============================================================================================
+# 9. histories that export the SAME live object several times; exports never modify what they export
+
+# memory layouts / flags of the live object's arrays (the pristine twin, built from the same plain data, stays plain)
+LAYOUTS = ["plain", "plain", "readonly", "fortran", "strided", "readonly_strided"]
+REEXPORT_IMG_EXTS = ["png", "bmp", "tif", "ppm", "PNG", "tiff"]
+
+
+def _relayout(a, layout):
+    """An array with the same values, dtype and shape but the drawn memory layout / writeable flag."""
+    a = np.array(a)  # own C-ordered copy
+    if layout in ("strided", "readonly_strided"):
+        # every second element along every axis of a larger buffer (the gaps hold a sentinel nobody may read or write)
+        big = np.full(tuple(2 * s for s in a.shape), 77).astype(a.dtype)
+        v = big[tuple(slice(0, None, 2) for _ in a.shape)]
+        v[...] = a
+        a = v
+    elif layout == "fortran":
+        a = np.asfortranarray(a)
+    if layout.startswith("readonly"):
+        a.flags.writeable = False
+    return a
+
+
+@st.composite
+def reexport_group(draw, d):
+    """One landmark group: {'lm': lm_shape_case, 'pts_ok': whether it lies in the domain of the points format}."""
+    if d == 2 and draw(st.integers(0, 2)) > 0:
+        # 2-D, finite, |x| <= 4e6, float32 exact (as in the pts clause): may be written as .pts as well
+        c = draw(objs.shape_case(kinds=LM_KINDS, d=2, with_landmarks=False))
+        n = len(c["pts"])
+        dtype = draw(st.sampled_from(["float64", "float64", "float32", "int"]))
+        if dtype == "float32":
+            co = gen.q(-4000, 4000)
+        elif dtype == "int":
+            co = st.integers(-5000, 5000).map(float)
+        else:
+            co = draw(st.sampled_from([_coord(), _coord(), _coord_wide()]))
+        c["pts"] = draw(st.lists(st.lists(co, min_size=2, max_size=2), min_size=n, max_size=n))
+        c["nan"], c["awk"], c["dtype"] = [], [], dtype
+        return {"lm": c, "pts_ok": True}
+    return {"lm": draw(lm_shape_case(d)), "pts_ok": False}
+
+
+def s_reexport():
+    @st.composite
+    def s(draw):
+        what = draw(st.sampled_from(["shape", "shape", "manager", "manager", "image"]))
+        c = {"what": what, "layout": draw(st.sampled_from(LAYOUTS))}
+        if what == "shape":
+            d = draw(st.sampled_from([2, 2, 2, 3]))
+            c["groups"] = [["LJSON", draw(reexport_group(d))]]
+        else:
+            d = 2 if what == "image" else draw(st.sampled_from([2, 2, 3]))
+            k = draw(st.integers(0 if what == "image" else 1, 3 if what == "manager" else 2))
+            names = draw(st.lists(st.sampled_from(ATTACH_GROUPS), min_size=k, max_size=k, unique=True))
+            c["groups"] = [[nm, draw(reexport_group(d))] for nm in names]
+        c["d"] = d
+        if what == "image":
+            cls = draw(st.sampled_from(["Image", "Image", "MaskedImage", "BooleanImage"]))
+            c["image"] = {"cls": cls, "shape": draw(st.lists(st.integers(1, 12), min_size=2, max_size=2)),
+                          "ch": 1 if cls == "BooleanImage" else draw(st.sampled_from([1, 3])), "seed": draw(st.integers(0, 2 ** 16)),
+                          "repr": draw(st.sampled_from(["uint8", "div", "mul", "float32"])),
+                          "mask": draw(st.sampled_from(["all", "random", "blob", "single"]))}
+        c["steps"] = [{"subject": draw(st.sampled_from([0, 0, 0, 1, 2, 3, 4])), "fmt": draw(st.integers(0, 7)),
+                       "target": draw(st.sampled_from(["new", "new", "same", "same", "handle"])), "as_path": draw(st.booleans()),
+                       "import_before": draw(st.booleans()), "overwrite": draw(st.sampled_from([None, True, False]))}
+                      for _ in range(draw(st.integers(2, 4)))]
+        return c
+
+    return s()
+
+
+def _build_reexport(case, layout):
+    """(root, {name: (group object held by root, shape case, want)}, 8-bit levels or None), all from the plain data."""
+    built = OrderedDict()
+    k = None
+    if case["what"] == "shape":
+        nm, g = case["groups"][0]
+        root, want = build_lm_shape(g["lm"])
+        root.points = _relayout(root.points, layout)
+        built[nm] = (root, g, want)
+        return root, built, k
+    if case["what"] == "manager":
+        root = PointCloud(np.zeros((1, case["d"])))
+    else:
+        ic = case["image"]
+        k = np.random.RandomState(ic["seed"]).randint(0, 256, size=(ic["ch"],) + tuple(ic["shape"])).astype(np.uint8)
+        if ic["cls"] == "BooleanImage":
+            k = (k >= 128).astype(np.uint8) * 255
+            root = build_img(ic, k > 0)
+        else:
+            px = {"uint8": k.copy(), "div": k / 255.0, "mul": k * (1.0 / 255.0), "float32": (k / 255.0).astype(np.float32)}[ic["repr"]]
+            root = build_img(ic, px)
+        root.pixels = _relayout(root.pixels, layout)
+        if ic["cls"] == "MaskedImage":
+            root.mask.pixels = _relayout(root.mask.pixels, layout)
+    for nm, g in case["groups"]:
+        s, want = build_lm_shape(g["lm"])
+        root.landmarks[nm] = s  # (the manager stores its own copy: the layout is applied to that copy)
+        held = root.landmarks[nm]
+        held.points = _relayout(held.points, layout)
+        built[nm] = (held, g, want)
+    return root, built, k
+
+
+def _reexport_subjects(case, root, built):
+    """[(label, live object, formats)]: everything of the root that an export_* entry point accepts."""
+    def group_formats(g):
+        return (["pts", "pts", "PTS", "pts"] if g["pts_ok"] else []) + ["ljson", "pkl", "pkl.gz", "LJSON"]
+
+    if case["what"] == "shape":
+        nm = list(built)[0]
+        return [("group:" + nm, root, group_formats(built[nm][1]))]
+    subs = []
+    if case["what"] == "image":
+        subs += [("image", root, REEXPORT_IMG_EXTS + ["pkl", "pkl.gz"])] * (2 if built else 1)
+    for nm, (held, g, want) in built.items():
+        subs.append(("group:" + nm, held, group_formats(g)))
+    if built:
+        subs.append(("manager", root.landmarks, ["ljson", "pkl", "ljson", "pkl.gz"]))
+        subs.append(("dict", OrderedDict((nm, b[0]) for nm, b in built.items()), ["ljson", "LJSON"]))
+    if case["what"] == "manager":
+        subs.append(("host", root, ["pkl", "pkl.gz"]))
+    return subs
+
+
+def _pub_diff(ref, back):
+    """digest.public_diff without the path attribute (import_pickle sets .path on what it returns)."""
+    va, vb = digest.public_view(ref), digest.public_view(back)
+    for v in (va, vb):
+        if isinstance(v, dict):
+            v.pop("path", None)
+    return digest.state_diff(va, vb, memo_tolerant=True)
+
+
+def _reexport_verify(ctx, path, label, fmt, built, pristine, k):
+    """Re-import one file and judge it against the pristine twin / the plain data (never against the live object)."""
+    low = fmt.lower()
+    p_root, p_built = pristine
+    if low == "pts":
+        nm = label.split(":", 1)[1]
+        want = built[nm][2]
+        res = mio.import_landmark_file(path)
+        if ctx.expect(isinstance(res, dict) and len(res) == 1, "reexport.pts.result", lambda: repr(res)):
+            bp = np.asarray(list(res.values())[0].points)
+            ok = bp.shape == want.shape and np.abs(bp - want).max() <= 0.5e-3 + 1e-9
+            ctx.expect(ok, "reexport.pts.precision", lambda: "%s: max |delta| %s\nwant %r\ngot  %r" % (
+                os.path.basename(path), float(np.abs(bp - want).max()) if bp.shape == want.shape else "-", want.tolist(), bp.tolist()))
+    elif low == "ljson":
+        res = mio.import_landmark_file(path)
+        if not ctx.expect(isinstance(res, dict), "reexport.ljson.result_type", lambda: type(res).__name__):
+            return
+        if label.startswith("group:"):
+            nm = label.split(":", 1)[1]
+            if ctx.expect(len(res) == 1, "reexport.ljson.single_shape_groups", lambda: repr(list(res.keys()))):
+                check_landmark_shape(ctx, built[nm][1]["lm"], built[nm][2], list(res.values())[0], "reexport.ljson")
+        elif ctx.expect(sorted(res.keys()) == sorted(built), "reexport.ljson.group_names", lambda: "%r vs %r" % (sorted(res.keys()), sorted(built))):
+            for nm, (held, g, want) in built.items():
+                check_landmark_shape(ctx, g["lm"], want, res[nm], "reexport.ljson")
+    elif low in ("pkl", "pkl.gz"):
+        back = mio.import_pickle(path)
+        if label.startswith("group:"):
+            ref = p_built[label.split(":", 1)[1]][0]
+        elif label == "manager":
+            ref = p_root.landmarks
+        else:
+            ref = p_root
+        if not ctx.expect(type(back) is type(ref), "reexport.pickle.class", lambda: "%s came back as %s" % (type(ref).__name__, type(back).__name__)):
+            return
+        if label == "manager":
+            if ctx.expect(sorted(back.keys()) == sorted(ref.keys()), "reexport.pickle.group_names", lambda: "%r vs %r" % (sorted(back.keys()), sorted(ref.keys()))):
+                for nm in ref.keys():
+                    diff = _pub_diff(ref[nm], back[nm])
+                    ctx.expect(diff is None, "reexport.pickle.state", lambda: "group %r of the manager: %s" % (nm, diff))
+        else:
+            diff = _pub_diff(ref, back)
+            ctx.expect(diff is None, "reexport.pickle.state", lambda: "%s: %s" % (label, diff))
+    else:
+        check_raw_import(ctx, mio.import_image(path, normalize=False, landmark_resolver=None), k, "reexport.image")
+
+
+def c_reexport(case, ctx):
+    import io
+
+    root, built, k = _build_reexport(case, case["layout"])
+    p_root, p_built, _ = _build_reexport(case, "plain")  # the pristine twin: same plain data, never handed to an exporter
+    pristine = (p_root, p_built)
+    subjects = _reexport_subjects(case, root, built)
+    watched = [root] + [s[1] for s in subjects if s[0] == "dict"]
+    d0 = digest.digest(watched, skip=_SKIP_PATH)
+    ctx.event("what=%s groups=%d layout=%s" % (case["what"], len(built), case["layout"]))
+    for nm, (held, g, want) in built.items():
+        ctx.event("group dtype=%s%s" % (g["lm"]["dtype"], " (pts domain)" if g["pts_ok"] else ""))
+    touched = {}  # what an export read -> number of exports that read it
+    files = OrderedDict()  # path -> (label, fmt) of the export that wrote it last
+    fams = []
+    with _Tmp() as t:
+        for i, st_ in enumerate(case["steps"]):
+            label, obj, fmts = subjects[st_["subject"] % len(subjects)]
+            fmt = fmts[st_["fmt"] % len(fmts)]
+            low = fmt.lower()
+            fam = "pts" if low == "pts" else "ljson" if low == "ljson" else "pickle" if low.startswith("pkl") else "image"
+            fn = {"pts": mio.export_landmark_file, "ljson": mio.export_landmark_file, "pickle": mio.export_pickle, "image": mio.export_image}[fam]
+            if st_["import_before"] and files:
+                # export -> import -> export of the original again (the import must not disturb anything either)
+                lp = list(files)[-1]
+                _reexport_verify(ctx, lp, files[lp][0], files[lp][1], built, pristine, k)
+                ctx.event("import between two exports")
+            reads = {label}
+            if label in ("manager", "dict", "host") or (label == "image" and fam == "pickle"):
+                reads |= {"group:" + nm for nm in built}
+            for r in reads:
+                touched[r] = touched.get(r, 0) + 1
+            target = st_["target"]
+            same = [p for p, (lb, f) in files.items() if f.lower() == low]
+            if target == "same" and not same:
+                target = "new"
+            if target == "handle" and low == "pkl.gz":
+                target = "new"  # (a nameless buffer cannot ask for compression)
+            if target == "same":
+                path = same[-1]
+                fn(obj, _as_fp(path, st_["as_path"]), overwrite=True)
+                ctx.event("same path again, overwrite=True")
+            elif target == "handle":
+                path = os.path.join(t.root, "f%d.%s" % (i, fmt))
+                buf = io.BytesIO()
+                if fam == "pickle":
+                    fn(obj, buf)
+                else:
+                    fn(obj, buf, extension=fmt)
+                with open(path, "wb") as f:
+                    f.write(buf.getvalue())
+                ctx.event("into a BytesIO")
+            else:
+                path = os.path.join(t.root, "f%d.%s" % (i, fmt))
+                kw = {} if st_["overwrite"] is None else {"overwrite": st_["overwrite"]}
+                fn(obj, _as_fp(path, st_["as_path"]), **kw)
+            files[path] = (label, fmt)
+            fams.append(fam)
+            ctx.event("export %s of %s" % (fam, label.split(":")[0]))
+            # (1) the exported object, its manager, groups, pixels and mask are what they were before the first export
+            d1 = digest.digest(watched, skip=_SKIP_PATH)
+            mut = digest.parameter_mutation(d0, d1)
+            if mut is not None:
+                ctx.fail("reexport.object_modified." + fam, "step %d: %s(<%s %s>, ...) changed the exported object (layout %s): %r" % (
+                    i, fn.__name__, label, type(obj).__name__, case["layout"], mut))
+                d0 = d1  # (reported once: later steps are judged from here)
+            # (2) this file holds the original data, however many exports came before it
+            _reexport_verify(ctx, path, label, fmt, built, pristine, k)
+        # every file of the history still holds the original data
+        for path, (label, fmt) in files.items():
+            _reexport_verify(ctx, path, label, fmt, built, pristine, k)
+    repeated = any(v >= 2 for v in touched.values())
+    ctx.nontrivial(repeated)
+    if repeated:
+        ctx.event("same object exported %s" % ("in one format several times" if len(set(fams)) < len(fams) else "in different formats"))
+
+
 CLAUSES = [
     Clause("ljson", c_ljson, s_ljson, quick=500, thorough=14000, nt_floor=0.4,
            rule="8 shape classes / LandmarkManager / dict of 1-4 groups x 2-D/3-D x 1-9 points x NaN positions x awkward floats x float32/int points; "
@@ -1801,6 +2073,13 @@ CLAUSES = [
            rule="a directory of 1-3 Pillow-written pictures with .ljson (shape / manager / dict) and / or .pts files of the same stem: "
                 "import_image(p).landmarks, import_images(dir)[i] and import_landmark_files(dir)[i] hold the 2-D groups under their names "
                 "with the exported data; non-trivial: some picture has a landmark group"),
+    Clause("reexport", c_reexport, s_reexport, quick=400, thorough=10000, nt_floor=0.5,
+           rule="ONE live object (a shape, a host with a LandmarkManager of 1-3 groups, an Image / MaskedImage / BooleanImage with 0-2 groups; arrays "
+                "plain / read-only / Fortran-ordered / strided views; float64 / float32 / int points, uint8 / float / bool pixels) goes through 2-4 exports: "
+                "the object, its manager, a dict of its groups or one group; .pts / .ljson / image formats / .pkl / .pkl.gz; a new path, the same path "
+                "with overwrite=True or a BytesIO; optionally an import in between. After every export the object is unchanged "
+                "(digest.parameter_mutation) and EVERY file written so far imports back to the data of a pristine twin built from the same plain "
+                "data (three decimals for .pts, exact otherwise); non-trivial: some object was read by at least two exports"),
     Clause("overwrite_history", c_history, s_history, quick=400, thorough=8000, nt_floor=0.3,
            rule="3-10 steps (export with overwrite False/True/default, import, foreign file) over 1-3 files in 3 directories, 7 spellings each, "
                 "str/Path; non-trivial: a refused export after a successful one"),
